@@ -1517,8 +1517,8 @@ def _unicode_summary(F):
 
     def summary(cur, e, st):
         # requires offsets 0 and 1 to be known (the backslash and the `u`)
-        outs = [("normal", St(know=st.know, consts=st.consts), ("tag", "None"))]
-        s = St(know=st.know, consts=st.consts)
+        outs = [("normal", St(know=st.know, consts=st.consts, moved=st.moved), ("tag", "None"))]
+        s = St(know=st.know, consts=st.consts, moved=st.moved)
         for o in (2, 3, 4, 5):
             s.know[o] = "N"
         for _ in range(4):
@@ -1554,6 +1554,27 @@ def c07i(F, R):
         if key not in cur.sites:
             R.bad(key, msg, where)
     R.note(f"cursor analysis: {len(cur.sites)} consume sites (with calling context), {len(outs)} exit states of next(); reviewed summary used for: {sorted(cur.used_summaries)}")
+
+@rule("C06", "C06.x.lexer-loops-advance", floor=4)
+def c06x(F, R):
+    """the cursor analysis once more, for termination: every path that goes round a scanning loop of the lexer (`while let Some(c) = self.current()`, `loop { .. }`) has stepped over at least one character since the loop head. The loops test nothing but the characters at the cursor, so a path that returns to the head with the cursor where it was takes the same path again: `if c == '\n' { continue }` in place of `break` hangs the lexer on the first line break after a bad escape"""
+    from .lexcursor import Cursor, Unextractable
+    summ = _unicode_summary(F)
+    if isinstance(summ, str):
+        R.bad("unicode_code|summary", summ, F.fn(LEXER + "::unicode_code")["sp"])
+        return
+    nxt = [F.method(LEXER, "next", trait="Iterator")]
+    cur = Cursor(F, summaries={"unicode_code": summ})
+    try:
+        cur.analyse(nxt[0])
+    except Unextractable as ex:
+        R.bad("unextractable", f"UNEXTRACTABLE: the lexer uses a construct the cursor analysis does not model: {ex}", F.fn(nxt[0])["sp"])
+        return
+    for key, (msg, where) in sorted(cur.stalls.items()):
+        R.bad(key, msg, where)
+    for lp, where in sorted(cur.loops_seen.items()):
+        if lp not in cur.stalls:
+            R.ok(lp, detail=f"every path round this loop of {lp.split('|')[0]} consumes a character", where=where)
 
 
 @rule("C09", "C09.h.positions-are-not-taken-on-a-line-break", floor=15)
